@@ -24,13 +24,9 @@ THEOREMS = [
     "Gwcs.Poly.rows_out_of_reach_untouched",
     "Gwcs.Poly.zero_width_marks_nothing",
     "Gwcs.Poly.clip_eq_crop",
-    "Gwcs.Poly.translate_equivariant",
-    "Gwcs.Poly.shift_harmless",
     "Gwcs.Poly.round_is_nearest",
     "Gwcs.Poly.round_commutes_with_integer_shift",
     "Gwcs.Poly.labels_last_wins",
-    "Gwcs.Poly.aetLoop_perm_activeAt",
-    "Gwcs.Poly.scanMaskLoop_eq_scanMask",
 ]
 RULE = ("case = (polygon vertices, image shape, labels); lattice triangles/quadrilaterals at overhang offsets, random star-shaped/concave "
         "polygons <= 12 vertices with integer, fractional and exact-half vertices, multi-polygon label drawings; non-trivial = positive "
